@@ -1,6 +1,342 @@
 (* Swamp/IndexProofs.v — lemmas and theorems about Swamp/Index.v *)
 From HV Require Import Base.Prelude Swamp.Index.
-From Coq Require Import Sorted Permutation Lia.
+From Coq Require Import Sorted Permutation Lia ZifyNat ZifyBool ZifyN.
+Ltac Zify.zify_post_hook ::= Z.div_mod_to_equations.
 Local Open Scope Z_scope.
 
-Lemma placeholder : True. Proof. exact I. Qed.
+(* ---- A. the attribute order is a total order --------------------------------------------- *)
+Lemma skey_leb_refl a : skey_leb a a = true.
+Proof. induction a as [|x a IH]; simpl; auto. rewrite Z.ltb_irrefl, Z.eqb_refl. exact IH. Qed.
+
+Lemma skey_leb_total a : forall b, skey_leb a b = true \/ skey_leb b a = true.
+Proof.
+  induction a as [|x a IH]; intros [|y b]; simpl; auto.
+  destruct (Z.ltb_spec x y), (Z.ltb_spec y x); auto; try lia.
+  assert (x = y) by lia; subst. rewrite Z.eqb_refl. apply IH.
+Qed.
+
+Lemma skey_leb_trans a : forall b c, skey_leb a b = true -> skey_leb b c = true -> skey_leb a c = true.
+Proof.
+  induction a as [|x a IH]; intros [|y b] [|z c]; simpl; auto; try discriminate.
+  destruct (Z.ltb_spec x y), (Z.ltb_spec y z), (Z.ltb_spec x z); auto; try lia;
+    destruct (Z.eqb_spec x y), (Z.eqb_spec y z), (Z.eqb_spec x z); auto; try lia; try discriminate.
+  apply IH.
+Qed.
+
+Lemma skey_leb_antisym a : forall b, skey_leb a b = true -> skey_leb b a = true -> a = b.
+Proof.
+  induction a as [|x a IH]; intros [|y b]; simpl; auto; try discriminate.
+  destruct (Z.ltb_spec x y), (Z.ltb_spec y x), (Z.eqb_spec x y), (Z.eqb_spec y x);
+    try lia; intros H1 H2; try discriminate.
+  subst. f_equal. apply IH; assumption.
+Qed.
+
+Lemma skey_eqb_eq a b : skey_eqb a b = true <-> a = b.
+Proof. unfold skey_eqb. apply list_eqb_eq. intros x y. apply Z.eqb_eq. Qed.
+Lemma skey_eqb_refl a : skey_eqb a a = true.
+Proof. apply skey_eqb_eq. reflexivity. Qed.
+Lemma skey_eqb_neq a b : skey_eqb a b = false <-> a <> b.
+Proof. split; intros H. - intros E. apply skey_eqb_eq in E. congruence.
+  - destruct (skey_eqb a b) eqn:E; auto. apply skey_eqb_eq in E. contradiction. Qed.
+
+Lemma ord_leb_refl asc a : ord_leb asc a a = true.
+Proof. destruct asc; apply skey_leb_refl. Qed.
+Lemma ord_leb_total asc a b : ord_leb asc a b = false -> ord_leb asc b a = true.
+Proof. destruct asc; simpl; intros H; [destruct (skey_leb_total a b)|destruct (skey_leb_total b a)]; congruence. Qed.
+Lemma ord_leb_trans asc a b c : ord_leb asc a b = true -> ord_leb asc b c = true -> ord_leb asc a c = true.
+Proof. destruct asc; simpl; intros; eauto using skey_leb_trans. Qed.
+Lemma ord_leb_antisym asc a b : ord_leb asc a b = true -> ord_leb asc b a = true -> a = b.
+Proof. destruct asc; simpl; intros; auto using skey_leb_antisym. Qed.
+
+(* strict/non-strict mixes *)
+Lemma ltb_leb_trans x f t : skey_ltb x f = true -> skey_leb f t = true -> skey_ltb x t = true.
+Proof.
+  unfold skey_ltb. intros H1 H2. destruct (skey_leb t x) eqn:E; auto.
+  rewrite (skey_leb_trans _ _ _ H2 E) in H1. discriminate.
+Qed.
+Lemma leb_ltb_trans y z f : skey_leb y z = true -> skey_ltb z f = true -> skey_ltb y f = true.
+Proof.
+  unfold skey_ltb. intros H1 H2. destruct (skey_leb f y) eqn:E; auto.
+  rewrite (skey_leb_trans _ _ _ E H1) in H2. discriminate.
+Qed.
+Lemma ltb_leb x f : skey_ltb x f = true -> skey_leb x f = true.
+Proof. unfold skey_ltb. intros H. destruct (skey_leb_total x f) as [A|A]; auto. rewrite A in H. discriminate. Qed.
+
+(* ---- B. insertion sort --------------------------------------------------------------------- *)
+Section Isort.
+  Context {X : Type} (le : X -> X -> bool).
+  Hypothesis le_total : forall a b, le a b = false -> le b a = true.
+  Let R := fun a b => le a b = true.
+
+  Lemma insert_by_perm x l : Permutation (insert_by le x l) (x :: l).
+  Proof.
+    induction l as [|y t IH]; simpl; auto. destruct (le x y); auto.
+    eapply perm_trans; [apply perm_skip, IH | apply perm_swap].
+  Qed.
+  Lemma isort_perm l : Permutation (isort le l) l.
+  Proof.
+    induction l as [|x t IH]; simpl; auto.
+    eapply perm_trans; [apply insert_by_perm | apply perm_skip, IH].
+  Qed.
+  Lemma insert_by_hdrel a x l : HdRel R a l -> R a x -> HdRel R a (insert_by le x l).
+  Proof. intros H Hx. destruct l as [|y t]; simpl; [constructor; auto|]. inversion H; subst.
+    destruct (le x y); constructor; auto. Qed.
+  Lemma insert_by_sorted x l : Sorted R l -> Sorted R (insert_by le x l).
+  Proof.
+    induction 1 as [|y t Hs IH Hh]; simpl; [repeat constructor|].
+    destruct (le x y) eqn:E.
+    - constructor; [constructor; auto | constructor; exact E].
+    - constructor; auto. apply insert_by_hdrel; auto. apply le_total; exact E.
+  Qed.
+  Lemma isort_sorted l : Sorted R (isort le l).
+  Proof. induction l as [|x t IH]; simpl; [constructor | apply insert_by_sorted; exact IH]. Qed.
+End Isort.
+
+(* sorted lists with the same elements are equal (antisymmetric total order) *)
+Lemma sorted_perm_unique asc (l1 : list skey) : forall l2,
+  Sorted (fun a b => ord_leb asc a b = true) l1 -> Sorted (fun a b => ord_leb asc a b = true) l2 ->
+  Permutation l1 l2 -> l1 = l2.
+Proof.
+  induction l1 as [|x t IH]; intros l2 S1 S2 P.
+  - apply Permutation_nil in P. auto.
+  - destruct l2 as [|y u]; [apply Permutation_sym, Permutation_nil in P; discriminate|].
+    apply Sorted_StronglySorted in S1; [|intros a b c; apply ord_leb_trans].
+    apply Sorted_StronglySorted in S2; [|intros a b c; apply ord_leb_trans].
+    inversion S1 as [|? ? S1t F1]; inversion S2 as [|? ? S2u F2]; subst.
+    assert (x = y).
+    { assert (Ix : In x (y :: u)) by (eapply Permutation_in; [exact P | left; auto]).
+      assert (Iy : In y (x :: t)) by (eapply Permutation_in; [apply Permutation_sym; exact P | left; auto]).
+      destruct Ix as [->|Ix]; auto. destruct Iy as [->|Iy]; auto.
+      rewrite Forall_forall in F1, F2. apply (ord_leb_antisym asc); auto. }
+    subst y. f_equal. apply IH.
+    + apply StronglySorted_Sorted; auto.
+    + apply StronglySorted_Sorted; auto.
+    + eapply Permutation_cons_inv; eauto.
+Qed.
+
+(* ---- generic list facts -------------------------------------------------------------------- *)
+Section ListFacts.
+  Context {X : Type}.
+  Lemma filter_and (f g : X -> bool) l : filter (fun x => f x && g x) l = filter g (filter f l).
+  Proof. induction l as [|x t IH]; simpl; auto. destruct (f x); simpl; [destruct (g x)|]; rewrite IH; auto. Qed.
+  Lemma filter_comm (f g : X -> bool) l : filter f (filter g l) = filter g (filter f l).
+  Proof. rewrite <- !filter_and. apply filter_ext. intros; apply andb_comm. Qed.
+  Lemma filter_all (f : X -> bool) l : (forall x, In x l -> f x = true) -> filter f l = l.
+  Proof. induction l as [|x t IH]; simpl; intros H; auto. rewrite (H x) by auto. f_equal. apply IH. auto. Qed.
+  Lemma filter_none (f : X -> bool) l : (forall x, In x l -> f x = false) -> filter f l = [].
+  Proof. induction l as [|x t IH]; simpl; intros H; auto. rewrite (H x) by auto. apply IH. auto. Qed.
+  Lemma filter_len_part (f : X -> bool) l :
+    (length (filter f l) + length (filter (fun x => negb (f x)) l) = length l)%nat.
+  Proof. induction l as [|x t IH]; simpl; auto. destruct (f x); simpl; lia. Qed.
+  Lemma filter_len_le (f : X -> bool) l : (length (filter f l) <= length l)%nat.
+  Proof. pose proof (filter_len_part f l). lia. Qed.
+  Lemma filter_map_len {Y} (g : X -> Y) (p : Y -> bool) l :
+    length (filter p (map g l)) = length (filter (fun x => p (g x)) l).
+  Proof. induction l as [|x t IH]; simpl; auto. destruct (p (g x)); simpl; auto. Qed.
+
+  (* a predicate that is closed towards the front of a sorted list holds on a prefix *)
+  Lemma sorted_split (R : X -> X -> Prop) (p : X -> bool) :
+    (forall y z, R y z -> p z = true -> p y = true) ->
+    forall a, StronglySorted R a -> a = filter p a ++ filter (fun x => negb (p x)) a.
+  Proof.
+    intros C a S. induction S as [|y t S IH F]; simpl; auto.
+    destruct (p y) eqn:E; simpl.
+    - f_equal. exact IH.
+    - rewrite Forall_forall in F.
+      assert (N : forall z, In z t -> p z = false).
+      { intros z Hz. destruct (p z) eqn:Ez; auto. rewrite (C y z (F z Hz) Ez) in E. discriminate. }
+      rewrite (filter_none p t N). simpl. f_equal. symmetry. apply filter_all.
+      intros z Hz. rewrite (N z Hz). reflexivity.
+  Qed.
+
+  (* the elements between two prefix predicates form the index interval [s, e1) *)
+  Lemma seg_lemma (p1 p2 : X -> bool) a :
+    a = filter p1 a ++ filter (fun x => negb (p1 x)) a ->
+    a = filter p2 a ++ filter (fun x => negb (p2 x)) a ->
+    ((forall x, p1 x = true -> p2 x = true) \/ (forall x, p2 x = true -> p1 x = true)) ->
+    filter (fun x => negb (p1 x) && p2 x) a =
+      firstn (length (filter p2 a) - length (filter p1 a)) (skipn (length (filter p1 a)) a).
+  Proof.
+    intros H1 H2 Himp.
+    set (np1 := fun x => negb (p1 x)) in *. set (np2 := fun x => negb (p2 x)) in *.
+    change (filter (fun x => negb (p1 x) && p2 x) a) with (filter (fun x => np1 x && p2 x) a).
+    assert (Sk : skipn (length (filter p1 a)) a = filter np1 a).
+    { rewrite H1 at 2. rewrite skipn_app, skipn_all, Nat.sub_diag. reflexivity. }
+    rewrite Sk. rewrite (filter_and np1 p2 a).
+    set (Xs := filter np1 (filter p2 a)).
+    assert (B : filter np1 a = Xs ++ filter np1 (filter np2 a)).
+    { rewrite H2 at 1. rewrite filter_app. reflexivity. }
+    assert (FX : filter p2 (filter np1 a) = Xs).
+    { rewrite B, filter_app. unfold Xs. rewrite (filter_comm p2 np1 (filter p2 a)).
+      rewrite (filter_all p2 (filter p2 a)) by (intros x Hx; apply filter_In in Hx; tauto).
+      rewrite (filter_comm p2 np1 (filter np2 a)).
+      rewrite (filter_none p2 (filter np2 a)).
+      - simpl. apply app_nil_r.
+      - intros x Hx. apply filter_In in Hx. destruct Hx as [_ Hx]. unfold np2 in Hx.
+        destruct (p2 x); auto; discriminate. }
+    rewrite FX.
+    assert (L : (length Xs = length (filter p2 a) - length (filter p1 a))%nat).
+    { pose proof (filter_len_part p1 (filter p2 a)) as P. fold np1 in P. fold Xs in P.
+      destruct Himp as [I|I].
+      - rewrite (filter_comm p1 p2 a) in P.
+        rewrite (filter_all p2 (filter p1 a)) in P; [lia|].
+        intros x Hx. apply filter_In in Hx. apply I. tauto.
+      - assert (Xs = []) as ->.
+        { apply filter_none. intros x Hx. apply filter_In in Hx. unfold np1. rewrite (I x); tauto. }
+        simpl in *. rewrite (filter_comm p1 p2 a) in P.
+        pose proof (filter_len_le p2 (filter p1 a)). lia. }
+    rewrite <- L, B. rewrite firstn_app, Nat.sub_diag, firstn_all. simpl. rewrite app_nil_r. reflexivity.
+  Qed.
+End ListFacts.
+
+(* ---- C. the binary searches of findTimeRangeBounds ------------------------------------------ *)
+Lemma bs_correct (go : skey -> bool) (a1 a2 : list skey) :
+  forallb go a1 = true -> forallb (fun x => negb (go x)) a2 = true ->
+  forall fuel l r, (l <= length a1)%nat -> (length a1 <= r)%nat -> (r <= length (a1 ++ a2))%nat ->
+    (r - l < fuel)%nat -> bs fuel go (a1 ++ a2) l r = Some (length a1).
+Proof.
+  intros G1 G2. rewrite forallb_forall in G1, G2.
+  induction fuel as [|fuel IH]; intros l r Hl Hr Hn Hf; [lia|].
+  cbn [bs]. destruct (Nat.ltb_spec l r) as [Lt|Ge].
+  - cbv zeta. set (m := (l + (r - l) / 2)%nat).
+    assert (Hm : (l <= m < r)%nat) by (unfold m; split; [lia|]; pose proof (Nat.div_lt (r - l) 2); lia).
+    destruct (nth_error (a1 ++ a2) m) as [x|] eqn:E.
+    2:{ apply nth_error_None in E. lia. }
+    destruct (Nat.lt_ge_cases m (length a1)) as [Lm|Gm].
+    + rewrite nth_error_app1 in E by exact Lm. apply nth_error_In in E. rewrite (G1 x E).
+      apply IH; lia.
+    + rewrite nth_error_app2 in E by exact Gm. apply nth_error_In in E.
+      specialize (G2 x E). destruct (go x); [discriminate|]. apply IH; lia.
+  - f_equal. lia.
+Qed.
+
+Lemma search_ok (p : skey -> bool) a :
+  a = filter p a ++ filter (fun x => negb (p x)) a ->
+  bs (S (length a)) p a 0 (length a) = Some (length (filter p a)).
+Proof.
+  intros H.
+  pose proof (bs_correct p (filter p a) (filter (fun x => negb (p x)) a)) as B.
+  rewrite <- H in B. apply B.
+  - apply forallb_forall. intros x Hx. apply filter_In in Hx. tauto.
+  - apply forallb_forall. intros x Hx. apply filter_In in Hx. tauto.
+  - lia.
+  - apply filter_len_le.
+  - lia.
+  - lia.
+Qed.
+
+(* the two prefix predicates of a window, per direction *)
+Definition lo_pred (asc : bool) (ft tu : option skey) : skey -> bool :=
+  if asc then match ft with Some f => fun x => skey_ltb x f | None => fun _ => false end
+  else match tu with Some t => fun x => negb (skey_ltb x t) | None => fun _ => false end.
+Definition hi_pred (asc : bool) (ft tu : option skey) : skey -> bool :=
+  if asc then match tu with Some t => fun x => skey_ltb x t | None => fun _ => true end
+  else match ft with Some f => fun x => negb (skey_ltb x f) | None => fun _ => true end.
+
+(* membership in the half-open window [from, to) *)
+Definition win (ft tu : option skey) (x : skey) : bool :=
+  (match ft with Some f => skey_leb f x | None => true end) &&
+  (match tu with Some t => skey_ltb x t | None => true end).
+
+Lemma win_preds asc ft tu x : win ft tu x = negb (lo_pred asc ft tu x) && hi_pred asc ft tu x.
+Proof.
+  unfold win, lo_pred, hi_pred, skey_ltb. destruct asc, ft, tu; simpl;
+    rewrite ?negb_involutive, ?andb_true_r; auto using andb_comm.
+Qed.
+
+Definition ordR (asc : bool) : skey -> skey -> Prop := fun x y => ord_leb asc x y = true.
+
+Lemma lo_pred_closed asc ft tu y z : ordR asc y z -> lo_pred asc ft tu z = true -> lo_pred asc ft tu y = true.
+Proof.
+  unfold ordR, lo_pred. destruct asc; simpl.
+  - destruct ft; auto. intros. eapply leb_ltb_trans; eauto.
+  - destruct tu; auto. unfold skey_ltb. rewrite !negb_involutive. intros. eapply skey_leb_trans; eauto.
+Qed.
+Lemma hi_pred_closed asc ft tu y z : ordR asc y z -> hi_pred asc ft tu z = true -> hi_pred asc ft tu y = true.
+Proof.
+  unfold ordR, hi_pred. destruct asc; simpl.
+  - destruct tu; auto. intros. eapply leb_ltb_trans; eauto.
+  - destruct ft; auto. unfold skey_ltb. rewrite !negb_involutive. intros. eapply skey_leb_trans; eauto.
+Qed.
+Lemma lo_hi_nested asc ft tu :
+  (forall x, lo_pred asc ft tu x = true -> hi_pred asc ft tu x = true) \/
+  (forall x, hi_pred asc ft tu x = true -> lo_pred asc ft tu x = true).
+Proof.
+  unfold lo_pred, hi_pred. destruct asc, ft as [f|], tu as [t|]; simpl; auto;
+    try (left; intros; discriminate).
+  - destruct (skey_leb_total f t) as [L|L].
+    + left. intros x H. eapply ltb_leb_trans; eauto.
+    + right. intros x H. eapply ltb_leb_trans; eauto.
+  - unfold skey_ltb. destruct (skey_leb_total f t) as [L|L].
+    + left. intros x. rewrite !negb_involutive. intros H. eapply skey_leb_trans; eauto.
+    + right. intros x. rewrite !negb_involutive. intros H. eapply skey_leb_trans; eauto.
+Qed.
+
+Lemma find_bounds_spec asc a ft tu :
+  Sorted (ordR asc) a ->
+  let s0 := length (filter (lo_pred asc ft tu) a) in
+  let e1 := length (filter (hi_pred asc ft tu) a) in
+  find_bounds asc a ft tu =
+    Some (if (s0 <? e1)%nat then (Z.of_nat s0, Z.of_nat e1 - 1) else (0, -1)).
+Proof.
+  intros Srt s0 e1.
+  apply Sorted_StronglySorted in Srt; [|intros x y z; apply ord_leb_trans].
+  pose proof (sorted_split (ordR asc) _ (lo_pred_closed asc ft tu) a Srt) as Plo.
+  pose proof (sorted_split (ordR asc) _ (hi_pred_closed asc ft tu) a Srt) as Phi.
+  pose proof (filter_len_le (lo_pred asc ft tu) a) as Ls.
+  pose proof (filter_len_le (hi_pred asc ft tu) a) as Le.
+  unfold find_bounds. destruct (Nat.eqb_spec (length a) 0) as [Z0|NZ].
+  - fold s0 in Ls. fold e1 in Le. replace (s0 <? e1)%nat with false; auto.
+    symmetry. apply Nat.ltb_ge. lia.
+  - assert (St : (if asc
+                  then match ft with Some f => bs (S (length a)) (fun ts => skey_ltb ts f) a 0 (length a) | None => Some 0%nat end
+                  else match tu with Some t => bs (S (length a)) (fun ts => negb (skey_ltb ts t)) a 0 (length a) | None => Some 0%nat end)
+                 = Some s0).
+    { unfold s0, lo_pred in *. destruct asc; [destruct ft | destruct tu];
+        try (apply search_ok; exact Plo);
+        rewrite (filter_none (fun _ : skey => false)); auto. }
+    assert (En : (if asc
+                  then match tu with Some t => bs (S (length a)) (fun ts => skey_ltb ts t) a 0 (length a) | None => Some (length a) end
+                  else match ft with Some f => bs (S (length a)) (fun ts => negb (skey_ltb ts f)) a 0 (length a) | None => Some (length a) end)
+                 = Some e1).
+    { unfold e1, hi_pred in *. destruct asc; [destruct tu | destruct ft];
+        try (apply search_ok; exact Phi);
+        rewrite (filter_all (fun _ : skey => true)); auto. }
+    rewrite St, En. fold s0 in Ls. fold e1 in Le.
+    destruct (Nat.ltb_spec s0 e1) as [Lt|Ge]; f_equal.
+    + replace (Z.of_nat s0 <? 0) with false by lia.
+      replace (Z.of_nat e1 - 1 >=? Z.of_nat (length a)) with false by lia.
+      replace (Z.of_nat s0 >? Z.of_nat e1 - 1) with false by lia.
+      replace (Z.of_nat s0 >=? Z.of_nat (length a)) with false by lia.
+      replace (Z.of_nat e1 - 1 <? 0) with false by lia. reflexivity.
+    + replace (Z.of_nat s0 <? 0) with false by lia.
+      replace (Z.of_nat e1 - 1 >=? Z.of_nat (length a)) with false by lia.
+      replace (Z.of_nat s0 >? Z.of_nat e1 - 1) with true by lia. reflexivity.
+Qed.
+
+(* findTimeRangeBounds on a slice sorted by the active attribute returns exactly the index
+   interval of the entries with from <= ts < to (ascending and descending): the entries at
+   [s..e] are, in order, all entries inside the window. No panic, no fuel exhaustion. *)
+Theorem bounds_correct asc a ft tu :
+  Sorted (ordR asc) a ->
+  exists s e, find_bounds asc a ft tu = Some (s, e) /\
+    0 <= s /\ -1 <= e < Z.of_nat (length a) /\ s <= e + 1 /\
+    filter (win ft tu) a = firstn (Z.to_nat (e + 1 - s)) (skipn (Z.to_nat s) a).
+Proof.
+  intros Srt. pose proof (find_bounds_spec asc a ft tu Srt) as F. cbv zeta in F.
+  set (s0 := length (filter (lo_pred asc ft tu) a)) in *.
+  set (e1 := length (filter (hi_pred asc ft tu) a)) in *.
+  pose proof (filter_len_le (hi_pred asc ft tu) a) as Le. fold e1 in Le.
+  assert (W : filter (win ft tu) a = firstn (e1 - s0) (skipn s0 a)).
+  { rewrite (filter_ext _ _ (win_preds asc ft tu)).
+    apply Sorted_StronglySorted in Srt; [|intros x y z; apply ord_leb_trans].
+    apply seg_lemma.
+    - apply (sorted_split (ordR asc) _ (lo_pred_closed asc ft tu) a Srt).
+    - apply (sorted_split (ordR asc) _ (hi_pred_closed asc ft tu) a Srt).
+    - apply lo_hi_nested. }
+  destruct (Nat.ltb_spec s0 e1) as [Lt|Ge].
+  - exists (Z.of_nat s0), (Z.of_nat e1 - 1). split; [exact F|]. repeat split; try lia.
+    rewrite W. f_equal; [lia | f_equal; lia].
+  - exists 0, (-1). split; [exact F|]. repeat split; try lia.
+    rewrite W. replace (e1 - s0)%nat with 0%nat by lia. reflexivity.
+Qed.
